@@ -16,6 +16,9 @@ was written for -- the tie is then broken, never approximated) and then calls
   assume_default   : `if <name>: A else: B` -> B (or A) when the keyword parameter <name> has the
                      stated constant default in the *current* signature (callers under study never
                      pass it)
+  body_from        : drop every statement before the first one whose source starts with the given
+                     text; names defined by the dropped part become parameters (they are hand-modelled
+                     and tied by the correspondence check, e.g. the member counts of the ensemble Brier score)
   reductions       : `<text>` -> Name, for scalar reductions such as `fcst.max()` that the model
                      computes itself and passes in as a parameter
 and `Kernel2` accepts branch-local temporaries in an `if` statement (names assigned in one branch
@@ -36,6 +39,13 @@ def rewrite(tree, site):
     tree = copy.deepcopy(tree)
     fn = _fn(tree, site["func"])
     steps = site.get("rewrites", {})
+
+    # ---- body_from ----
+    if "body_from" in steps:
+        idx = [i for i, st in enumerate(fn.body) if T.src(st).startswith(steps["body_from"])]
+        if len(idx) != 1:
+            raise T.Unsupported(f"expected exactly one statement starting with `{steps['body_from']}`, found {len(idx)}")
+        fn.body = fn.body[idx[0]:]
 
     # ---- align_identity ----
     if steps.get("align_identity"):
